@@ -130,7 +130,7 @@ func TestWorker(t *testing.T) {
 		os.Exit(2)
 	}
 	workerT = t
-	debug.SetMaxStack(1 << 30)
+	debug.SetMaxStack(512 << 20)
 	seed := uint64(envInt("VERIF_SEED", 1))
 	from, to := envInt("VERIF_FROM", 0), envInt("VERIF_TO", 100)
 	budget := time.Duration(envInt("VERIF_BUDGET_S", 3600)) * time.Second
